@@ -190,6 +190,12 @@ def _encode(kinds, crlf):
             txt = ""
         elif k == "array_junk":
             txt = "[1, 2"
+        elif k == "trail":   # a valid message followed by other text on the same line: the LINE is not valid JSON
+            txt = _json.dumps(LINES["req"], ensure_ascii=False) + " log"
+        elif k == "double":  # two messages on one line (a lost line feed): not one valid JSON document
+            txt = _json.dumps(LINES["req"], ensure_ascii=False) + " " + _json.dumps(LINES["req"], ensure_ascii=False)
+        elif k == "trail_nospace":
+            txt = _json.dumps(LINES["req"], ensure_ascii=False) + "x"
         else:
             raise HarnessError(k)
         out += txt.encode("utf-8") + (b"\r\n" if crlf else b"\n")
